@@ -746,6 +746,8 @@ func c08R10(p *Prog, r *Report) {
 		return
 	}
 	// the loader stores the content it compared, past the point where the new maps are installed
+	// (helpers expanded: the store may sit in the helper that installs the maps)
+	loader = p.Inlined(loader)
 	nLoad := 0
 	for _, fa := range loader.FieldAccesses(mp("cred"), "ManagedServer", map[string]bool{memo.Name(): true}) {
 		if !fa.Write {
@@ -773,6 +775,7 @@ func c08R10(p *Prog, r *Report) {
 		if namedTypeName(recvNamed(fc)) != "ManagedServer" {
 			return
 		}
+		fc = p.Inlined(fc)
 		info := fc.Info()
 		for _, cs := range fc.AllCalls() {
 			if cs.Fn == nil {
@@ -809,6 +812,11 @@ func c08R10(p *Prog, r *Report) {
 					continue
 				}
 				stores[fa.V] = true
+				// judged with the write whose success edge leads here (several saves may have
+				// been expanded into one caller)
+				if !cs.SuccessGuards(fa.V) && len(cs.ResultEdges(-1, WantNil)) > 0 {
+					continue
+				}
 				uses := false
 				if as, ok := fc.G.V[fa.V].Node.(*ast.AssignStmt); ok {
 					for _, rhs := range as.Rhs {
